@@ -133,6 +133,10 @@ func Parse(s string) (*DPoP, error) {
 	if err != nil {
 		return nil, errors.Join(ErrInvalidDPoP, err)
 	}
+	// the signature must be over the bytes that were received, not over a normalized form of them
+	if err := jwx.ValidateCompactSerialization([]byte(s)); err != nil {
+		return nil, errors.Join(ErrInvalidDPoP, err)
+	}
 	// we require exactly one signature
 	if len(message.Signatures()) != 1 {
 		return nil, fmt.Errorf("%w: invalid number of signatures", ErrInvalidDPoP)
